@@ -64,26 +64,57 @@ def r03a(ck, fb):
                'after rewinding data_cursor strip_log_to does not erase the removed records (no set_len(data_cursor) / cursor-sized zero '
                'fill on every success path): a re-append that is not longer than what it overwrites leaves the old records parseable, '
                'and they come back as entries after a reopen', 'erased by %s' % [s.callee.split('::')[-1] for s in erasers])
-    # index erase
-    ic_writes = [(bb, st) for (o, f, bb, st) in b.field_writes() if f == 'index_cursor']
-    ck.floor('R03a', 'index_cursor rewind in strip_log_to', len(ic_writes), 1)
+    # index erase (in strip_log_to itself or in a helper it calls with the popped width: extract-method keeps the rule)
     popped = Taint(b, call_src=lambda t: (t.get('f') or {}).get('d', '').endswith('get_file_index_by_log_index'))
-    ers = [s for s in util.sites_on_field(b, r'AsyncWriteExt::write_all$', 'index_file') if _sized_zero_fill(b, s, popped)]
-    ok = bool(ers) and bool(ic_writes)
-    for (bb, st) in ic_writes:
-        if not cfg.must_pass_before_return(b, bb, {s.bb for s in ers}, returns=_ok_returns(b)):
-            ok = False
-        # the rewind amount is the popped width
-        if not any(popped.op_tainted(x) for x in rv_operands(st['rv'])):
-            ok = False
+    cands = [(b, popped)]
+    for x in util.region(fb, b):
+        if x is b or x.name == b.name or x.parent == b.name or (b.parent and x.name == b.parent):
+            continue
+        xm = x
+        if fb.has(x.name):
+            try:
+                xm = fb.main(x.name)
+            except Exception:
+                xm = x
+        # parameters of the helper that receive popped-width values at its call sites in strip_log_to
+        srcs = set()
+        for cs in b.calls(re.escape(x.name) + '$'):
+            for k, a in enumerate(cs.args):
+                if popped.op_tainted(a):
+                    srcs.add(k + 1)
+        if srcs:
+            # async helper: its coroutine body reads the arguments as upvar fields of _1; taint those fields
+            if xm is not x:
+                def _src(p, srcs=srcs):
+                    from rn.facts import pl_local, pl_proj
+                    pr = pl_proj(p)
+                    return pl_local(p) == 1 and bool(pr) and isinstance(pr[0], dict) and str(pr[0].get('f')) in {str(k - 1) for k in srcs}
+                cands.append((xm, Taint(xm, place_src=_src)))
+            else:
+                cands.append((x, Taint(x, local_src=sorted(srcs))))
+    ok = False
+    n_ic = 0
+    for (x, tp) in cands:
+        ic_writes = [(bb, st) for (o, f, bb, st) in x.field_writes() if f == 'index_cursor']
+        if not ic_writes:
+            continue
+        n_ic += len(ic_writes)
+        ers = [s for s in util.sites_on_field(x, r'AsyncWriteExt::write_all$', 'index_file') if _sized_zero_fill(x, s, tp)]
+        okx = bool(ers)
+        for (bb, st) in ic_writes:
+            if not cfg.must_pass_before_return(x, bb, {s.bb for s in ers}, returns=_ok_returns(x)):
+                okx = False
+            if not any(tp.op_tainted(v) for v in rv_operands(st['rv'])):     # the rewind amount is the popped width
+                okx = False
+        for s in ers:
+            sk = [y for y in util.sites_on_field(x, r'AsyncSeekExt::seek$', 'index_file')]
+            ck.require(any(cfg.dominates_blocks(x, {y.bb}, s.bb) for y in sk), 'R03a', 'strip_log_to:index-seek', s.where(),
+                       'index zero fill is not preceded by a seek to the rewound index cursor')
+        ok = ok or okx
+    ck.floor('R03a', 'index_cursor rewind in strip_log_to', n_ic, 1)
     ck.require(ok, 'R03a', 'strip_log_to:index-erase', b.where(),
                'the popped index entries are not zeroed with a buffer sized by the popped width: stale index entries are read back as '
                'file offsets after a reopen', 'zero fill sized by popped width')
-    # the index write happens at the rewound cursor (seek before write)
-    for s in ers:
-        sk = [x for x in util.sites_on_field(b, r'AsyncSeekExt::seek$', 'index_file')]
-        ck.require(any(cfg.dominates_blocks(b, {x.bb}, s.bb) for x in sk), 'R03a', 'strip_log_to:index-seek', s.where(),
-                   'index zero fill is not preceded by a seek to the rewound index cursor')
     # flushes
     fl = util.sites_on_field(b, r'AsyncWriteExt::flush$', 'data_file')
     ck.require(bool(fl) and all(util.awaited(b, s) for s in fl), 'R03a', 'strip_log_to:flush', b.where(), 'data file not flushed after truncation')
